@@ -15,6 +15,7 @@ class EnoughViolations(BaseException):
 class Report:
     def __init__(self, prop, tier, seed):
         self.prop, self.tier, self.seed = prop, tier, seed
+        self._check_t0 = time.time()
         self.t0 = time.time()
         self.harnesses = []
         self.violations = []      # replayed and confirmed on the real code
@@ -39,11 +40,32 @@ class Report:
 
     # ------------------------------------------------------------------
     def _enough(self):
-        """a tree on which six different violations have been replayed is broken: the remaining harnesses add nothing to the
-        verdict (exit 1) and can take very long on such a tree"""
-        if len(self.violations) >= 6 and not getattr(self, "_stopped", False):
+        """a tree on which violations have been replayed is broken: once there are six different ones, twenty replays, or ten
+        minutes (thorough: thirty) have gone by since the first, the remaining harnesses add nothing to the verdict (exit 1)
+        and can take very long on such a tree"""
+        import time as _t
+        if getattr(self, "_stopped", False):
+            return
+        # the whole check has a time budget as well: on a tree where every harness runs into its deadline (path explosion after
+        # some change) the check must still come to an end; what was not run is reported as not covered
+        started = getattr(self, "_check_t0", None)
+        if started is None:
+            started = self._check_t0 = _t.time()
+        budget = float(os.environ.get("SXV_CHECK_BUDGET", "0")) or (1500 if self.tier == "quick" else 4 * 3600)
+        if _t.time() - started > budget:
             self._stopped = True
-            self.notes.append("stopped after %d distinct replayed violations; the remaining harnesses were not run" % len(self.violations))
+            self.inconclusive.append("check time budget of %d s used up; the remaining harnesses were not run: not covered by the claim" % budget)
+            raise EnoughViolations()
+        if not self.violations:
+            return
+        t0 = getattr(self, "_first_violation_t", None)
+        if t0 is None:
+            t0 = self._first_violation_t = _t.time()
+        limit = 600 if self.tier == "quick" else 1800
+        if len(self.violations) >= 6 or sum(v["count"] for v in self.violations) >= 20 or _t.time() - t0 > limit:
+            self._stopped = True
+            self.notes.append("stopped after %d distinct replayed violations (%d replays); the remaining harnesses were not run" % (
+                len(self.violations), sum(v["count"] for v in self.violations)))
             raise EnoughViolations()
 
     def add_exploration(self, name, ex, bounds=None, extra=None):
